@@ -30,6 +30,10 @@ def cases(ctx):
     # geometry-rich: longer series, all windows (compact layout regions A-D), psi
     out += dc.random_cases(rng, n, 8 if q else 10, (0, 1, 2, 5), inners=("sq", "eu"), pens=(0, 0, 1),
                            mss=(0, 0, 0, 3), mds=(0, 0, 9, 25), psi_prob=0.5)
+    # thresholds ON the cost lattice (max_dist 1, 2, 3, 4: equal to attainable accumulated costs): a cell whose
+    # optimum equals max_dist does not exceed it and has to hold the optimum
+    out += dc.random_cases(rng, n // 2, 7, (0, 1, 2, 3), inners=("sq", "eu"), pens=(0, 0, 1), mds=(2, 4, 6, 8),
+                           psi_prob=0.3)
     out += dc.random_cases(rng, n // 2, 8, (0, 1), inners=("sq",), pens=(0,), psi_prob=0.2)
     out += ndim_cases(rng, n // 4, 5, RECT2, ("sq", "eu"), pens=(0, 1), mss=(0, 0, 4), mds=(0, 0, 7), psi_prob=0.3)
     return dc.with_ids(out, "c04-")
